@@ -60,6 +60,9 @@ pub struct Observer {
     pub sig_hash: u64,
     pub last_seq: u64,
     pub last_t: u64,
+    /// Highest consensus round seen on the wire, and rounds newly reached since the last drain.
+    pub max_round_seen: u64,
+    pub new_rounds: Vec<u64>,
     pub ext: crate::monitors::Ext,
 }
 
@@ -104,6 +107,8 @@ impl Observer {
             sig_hash: 0,
             last_seq: 0,
             last_t: 0,
+            max_round_seen: 0,
+            new_rounds: Vec::new(),
             ext: crate::monitors::Ext::new(n),
         }
     }
@@ -179,6 +184,22 @@ impl Observer {
                 let dec = decode(ev, data);
                 if let Decoded::Cons(ConsensusMessage::Propose(b)) = &dec {
                     self.learn_block(b, ev.seq);
+                }
+                if let (Decoded::Cons(m), Phase::Written) = (&dec, *phase) {
+                    if self.is_honest_node(ev.src()) {
+                        let r = match m {
+                            ConsensusMessage::Propose(b) => b.round,
+                            ConsensusMessage::Vote(v) => v.round,
+                            ConsensusMessage::Timeout(t) => t.round,
+                            ConsensusMessage::TC(t) => t.round,
+                            ConsensusMessage::SyncRequest(..) => 0,
+                        };
+                        while self.max_round_seen < r {
+                            self.max_round_seen += 1;
+                            let x = self.max_round_seen;
+                            self.new_rounds.push(x);
+                        }
+                    }
                 }
                 crate::monitors::on_frame(self, ev, *phase, *fidx, data, &dec);
             }
